@@ -25,7 +25,9 @@ LEVEL = "model_checking"
 def cells_chunk(task):
     N, m, bx, a, b = task["N"], task["m"], task["box"], task["a"], task["b"]
     lo, up = box(bx, N)
-    ev = Evolvent(lo, up, N, m)
+    ev = curve.make_ev(N, m, bx, task.get("via"))
+    if task.get("via"):
+        bx = f"{bx} (set with SetBounds on an evolvent built for {task['via']})"
     n = 2 ** (N * m)
     w = (np.array(up) - np.array(lo)) / 2 ** m
     msgs = []
@@ -163,6 +165,10 @@ def run(ctx):
             step = max(64, n // 32)
             for a in range(0, n, step):
                 tasks.append(dict(N=N, m=m, box=bx, a=a, b=min(n, a + step)))
+    # the same queries with the box configured through SetBounds (every ordered pair of boxes)
+    for (N, m) in curve.small_configs(8 if not th else 10):
+        for via, bx in curve.VIA_PAIRS:
+            tasks.append(dict(N=N, m=m, box=bx, via=via, a=0, b=2 ** (N * m)))
     tasks.sort(key=lambda t: -(t["b"] - t["a"]) * t["m"] * 2 ** t["N"])
     nq = 0
     for t, (q, msgs) in zip(tasks, pmap(cells_chunk, tasks)):
